@@ -435,7 +435,14 @@ func Decide(atom ast.Atom, subst *unionfind.UnionFind) (bool, []*unionfind.Union
 		if err != nil {
 			return false, nil, err
 		}
-		return abs(nums[0]-nums[1]) < nums[2], []*unionfind.UnionFind{subst}, nil
+		// The distance of two int64 values always fits an uint64; the difference itself may overflow.
+		var dist uint64
+		if nums[0] >= nums[1] {
+			dist = uint64(nums[0]) - uint64(nums[1])
+		} else {
+			dist = uint64(nums[1]) - uint64(nums[0])
+		}
+		return nums[2] > 0 && dist < uint64(nums[2]), []*unionfind.UnionFind{subst}, nil
 	default:
 		return false, nil, fmt.Errorf("not a builtin predicate: %s", atom.Predicate.Symbol)
 	}
